@@ -46,22 +46,15 @@
 
    Identifiers are prefixed pl_ (single extracted OCaml module). *)
 From Coq Require Import ZArith List Bool Ascii String.
-From Cnfgen Require Import Sem Comb Linear IR Text Dimacs Cli GraphSpec Subst FamTab FamFast
-     Fam_php Fam_count Fam_cliquecol C03_Util Fam_ordering Fam_ramsey Fam_cpls.
+From Cnfgen Require Import Sem Comb Linear IR Text Dimacs Cli GraphSpec GraphIO Subst FamTab FamFast
+     Fam_php Fam_count Fam_cliquecol Fam_subsetcard C02Common Fam_tseitin Fam_coloring Fam_domset Fam_subgraph
+     C03_Util Fam_ordering Fam_ramsey Fam_cpls Fam_pebbling PipelineGraph.
 Import ListNotations.
 Open Scope Z_scope.
 
 (* ------------------------------------------------------------------ *)
 (* results                                                             *)
 (* ------------------------------------------------------------------ *)
-Inductive pl_parsed (A : Type) : Type :=
-| PlOk (a : A)
-| PlErr            (* CLIError raised while parsing *)
-| PlOutside.       (* outside the token grammar *)
-Arguments PlOk {A} a.
-Arguments PlErr {A}.
-Arguments PlOutside {A}.
-
 (* the formula object handed to to_file: number of variables and clauses in order *)
 Inductive pl_fres :=
 | FrOk (n : Z) (F : cnf)
@@ -105,13 +98,15 @@ Inductive pl_class :=
 | PlOut.                (* outside the grammar *)
 
 (* argparse._parse_optional of the main parser and of the sub-command parser, on the grammar.
-   flags: the exact option strings of the sub-command other than -h/--help *)
-Definition pl_classify (flags : list text) (t : text) : pl_class :=
+   flags: the exact option strings of the sub-command that take no argument (other than -h/--help);
+   longs: its other long option strings (options with an argument: outside) *)
+Definition pl_classify_gen (flags longs : list text) (t : text) : pl_class :=
   match t with
   | [] => PlPos t
   | c :: r =>
     if negb (Ascii.eqb c pl_dash) then PlPos t
     else if gs_mem t flags then PlFlag t
+    else if gs_mem t longs then PlOut
     else if pl_all_digits r then PlPos t
     else
       match r with
@@ -120,12 +115,14 @@ Definition pl_classify (flags : list text) (t : text) : pl_class :=
         if Ascii.eqb c2 pl_dash then
           if gs_is_nil r2 then PlOut
           else if pl_has_char "="%char t || pl_has_char " "%char t then PlOut
-          else if existsb (pl_prefix t) (lit "--help" :: pl_main_longs ++ flags) then PlOut
+          else if existsb (pl_prefix t) (lit "--help" :: pl_main_longs ++ flags ++ longs) then PlOut
           else PlUnknown
         else if gs_is_nil r2 && pl_is_letter c2 && negb (gs_teqb t (lit "-h")) then PlUnknown
         else PlOut
       end
   end.
+
+Definition pl_classify (flags : list text) (t : text) : pl_class := pl_classify_gen flags [] t.
 
 Definition pl_is_out (c : pl_class) : bool := match c with PlOut => true | _ => false end.
 Definition pl_is_unknown (c : pl_class) : bool := match c with PlUnknown => true | _ => false end.
@@ -152,6 +149,30 @@ Definition pl_star (cls : list pl_class) : option (list text) :=
   let x := pl_take_run (pl_drop_options cls) in
   if existsb pl_is_pos (snd x) then None else Some (fst x).
 
+(* the maximal runs of arguments (separated by options) *)
+Fixpoint pl_runs_aux (cur : list text) (cls : list pl_class) : list (list text) :=
+  match cls with
+  | [] => match cur with [] => [] | _ => [rev cur] end
+  | PlPos t :: r => pl_runs_aux (t :: cur) r
+  | _ :: r => match cur with [] => pl_runs_aux [] r | _ => rev cur :: pl_runs_aux [] r end
+  end.
+Definition pl_runs (cls : list pl_class) : list (list text) := pl_runs_aux [] cls.
+(* positionals [x (one argument); G (nargs='+')]: consume_positionals matches as many positionals as the run in
+   front of it allows: x and G from one run of >= 2 arguments, or x from a run of one and G from the next run;
+   anything else leaves a positional without arguments or arguments without a positional *)
+Definition pl_one_plus (cls : list pl_class) : option (text * list text) :=
+  match pl_runs cls with
+  | [a :: b :: r] => Some (a, b :: r)
+  | [[a]; b :: r] => Some (a, b :: r)
+  | _ => None
+  end.
+(* positionals [G (nargs='+')] *)
+Definition pl_plus (cls : list pl_class) : option (list text) :=
+  match pl_runs cls with
+  | [a :: r] => Some (a :: r)
+  | _ => None
+  end.
+
 (* ------------------------------------------------------------------ *)
 (* abstract commands                                                   *)
 (* ------------------------------------------------------------------ *)
@@ -169,7 +190,22 @@ Inductive pl_fcmd :=
 | FcAnd (p n : Z)
 | FcOr (p n : Z)
 | FcTrue
-| FcFalse.
+| FcFalse
+(* with a graph argument: simple graphs as (order, sorted edge list u < v), bipartite graphs as the lists of right
+   neighbours and the number of right vertices, dags as predecessor lists *)
+| FcKcolor (k n : Z) (E : list (Z * Z))
+| FcEc (n : Z) (E : list (Z * Z))
+| FcTiling (n : Z) (E : list (Z * Z))
+| FcMatching (n : Z) (E : list (Z * Z))
+| FcKclique (k : Z) (symbreak : bool) (n : Z) (E : list (Z * Z))
+| FcKcliquebin (k n : Z) (E : list (Z * Z))
+| FcDomset (d : Z) (alternative : bool) (n : Z) (E : list (Z * Z))
+| FcTseitin (ch : option (list bool)) (n : Z) (E : list (Z * Z))
+| FcGphp (adj : list (list Z)) (R : Z) (functional onto : bool)
+| FcSubsetcard (adj : list (list Z)) (R : Z) (equalities : bool)
+| FcGop (nb : list (list Z)) (total smart plant : bool) (knuth : Z)
+| FcPeb (D : list (list Z))
+| FcStone (s : Z) (D : list (list Z)).
 
 Inductive pl_tcmd :=
 | TcNone | TcFlip | TcIte
@@ -200,6 +236,13 @@ Fixpoint pl_ints (ts : list text) : option (list Z) :=
               end
   end.
 
+Definition pl_map_parsed {A B} (f : A -> B) (x : pl_parsed A) : pl_parsed B :=
+  match x with PlOk a => PlOk (f a) | PlErr => PlErr | PlOutside => PlOutside end.
+(* ValueError raised while build_formula runs is the same command line error as one raised while parsing;
+   [mk] returns None for it *)
+Definition pl_bind_parsed {A B} (x : pl_parsed A) (f : A -> pl_parsed B) : pl_parsed B :=
+  match x with PlOk a => f a | PlErr => PlErr | PlOutside => PlOutside end.
+
 Definition pl_php_flags : list text := [lit "--functional"; lit "--onto"].
 (* php_helpers.py: PHPArgs + PHPCmdHelper.build_formula *)
 Definition pl_parse_php (toks : list text) : pl_parsed pl_fcmd :=
@@ -212,7 +255,13 @@ Definition pl_parse_php (toks : list text) : pl_parsed pl_fcmd :=
     | None => PlErr                                        (* unrecognized arguments *)
     | Some [] => PlErr                                     (* php formula needs <pigeons> <holes> specification *)
     | Some (v0 :: vs) =>
-      if negb (gs_float_ok v0) then PlOutside              (* a bipartite graph specification *)
+      if negb (gs_float_ok v0) then                        (* a bipartite graph specification: innerparser, B nargs='+' *)
+        match plg_graph_arg GSBipartite (v0 :: vs) with
+        | PlOk G => if existsb pl_is_unknown cls then PlErr
+                    else PlOk (FcGphp (plg_adj (io_n G) (io_edges G)) (io_r G) f o)
+        | PlErr => PlErr
+        | PlOutside => PlOutside
+        end
       else if (3 <? len (v0 :: vs)) then PlErr             (* too many arguments *)
       else match pl_ints (v0 :: vs) with
            | None => PlErr
@@ -247,7 +296,13 @@ Definition pl_parse_op (toks : list text) : pl_parsed pl_fcmd :=
     | None => PlErr
     | Some [] => PlErr                                     (* requires some arguments *)
     | Some (v0 :: vs) =>
-      if negb (gs_float_ok v0) then PlOutside              (* a graph specification *)
+      if negb (gs_float_ok v0) then                        (* a graph specification: gopparser, G nargs='+' *)
+        match plg_graph_arg GSSimple (v0 :: vs) with
+        | PlOk G => if (1 <? chosen) || existsb pl_is_unknown cls then PlErr
+                    else PlOk (FcGop (plg_nbrs (io_n G) (io_edges G)) total smart plant (if k2 then 2 else if k3 then 3 else 0))
+        | PlErr => PlErr
+        | PlOutside => PlOutside
+        end
       else match v0 :: vs with
            | [tn] =>
              match gs_int tn with
@@ -266,6 +321,82 @@ Definition pl_parse_op (toks : list text) : pl_parsed pl_fcmd :=
            end
     end.
 
+(* ---- sub-commands with a graph argument ---- *)
+(* positionals [G]: ec tiling matching (simple), peb (dag) *)
+Definition pl_parse_graph_only (g : gs_gtype) (mk : iograph -> pl_fcmd) (toks : list text) : pl_parsed pl_fcmd :=
+  let cls := map (pl_classify []) toks in
+  if existsb pl_is_out cls then PlOutside
+  else if existsb pl_is_unknown cls then PlErr
+  else match pl_plus cls with
+       | None => PlErr
+       | Some vs => pl_map_parsed mk (plg_graph_arg g vs)
+       end.
+
+(* positionals [x (type function); G], options that take no argument [flags], other options [longs] *)
+Definition pl_parse_int_graph (flags longs : list text) (ty : argty) (g : gs_gtype)
+           (mk : list pl_class -> Z -> iograph -> pl_fcmd) (toks : list text) : pl_parsed pl_fcmd :=
+  let cls := map (pl_classify_gen flags longs) toks in
+  if existsb pl_is_out cls then PlOutside
+  else if existsb pl_is_unknown cls then PlErr
+  else match pl_one_plus cls with
+       | None => PlErr
+       | Some (tx, vs) =>
+         match gs_int tx with
+         | None => PlErr
+         | Some x => if argty_ok ty x then pl_map_parsed (mk cls x) (plg_graph_arg g vs) else PlErr
+         end
+       end.
+
+(* counting_helpers.py: TseitinCmdHelper: compose_two_parsers(shortcut N [d], longform <charge> <graph>) *)
+Definition pl_charge (name : text) (n : Z) : option (option (list bool)) :=
+  if n <? 1 then Some None                                 (* G.order() < 1: charge = None *)
+  else if gs_teqb name (lit "first") then Some (Some (true :: repeat false (Z.to_nat (n - 1))))
+  else if gs_teqb name (lit "zero") then Some (Some (repeat false (Z.to_nat n)))
+  else if gs_teqb name (lit "one") then Some (Some (repeat true (Z.to_nat n)))
+  else None.
+Definition pl_charge_names : list text :=
+  [lit "first"; lit "random"; lit "randomodd"; lit "randomeven"; lit "zero"; lit "one"].
+Definition pl_parse_tseitin (toks : list text) : pl_parsed pl_fcmd :=
+  let cls := map (pl_classify []) toks in
+  if existsb pl_is_out cls then PlOutside
+  else if existsb pl_is_unknown cls then PlErr
+  else match pl_star cls with
+       | None => PlErr
+       | Some [] => PlErr                                  (* requires some arguments *)
+       | Some (v0 :: vs) =>
+         if gs_float_ok v0 then PlOutside                  (* tseitin N [d]: random regular graph, random charge *)
+         else if negb (gs_mem v0 pl_charge_names) then PlErr   (* invalid choice *)
+         else match vs with
+              | [] => PlErr                                (* the following arguments are required: <graph> *)
+              | _ =>
+                match plg_graph_arg GSSimple vs with
+                | PlOk G => match pl_charge v0 (io_n G) with
+                            | Some ch => PlOk (FcTseitin ch (io_n G) (io_edges G))
+                            | None => PlOutside            (* random charges *)
+                            end
+                | PlErr => PlErr
+                | PlOutside => PlOutside
+                end
+              end
+       end.
+
+Definition pl_sc_flags : list text := [lit "--equal"; lit "-e"].
+(* counting_helpers.py: SCCmdHelper: compose_two_parsers(N [d] -> random regular graph, <bipartite>) *)
+Definition pl_parse_subsetcard (toks : list text) : pl_parsed pl_fcmd :=
+  let cls := map (pl_classify pl_sc_flags) toks in
+  if existsb pl_is_out cls then PlOutside
+  else if existsb pl_is_unknown cls then PlErr
+  else
+    let eq := pl_has_flag "--equal" cls || pl_has_flag "-e" cls in
+    match pl_star cls with
+    | None => PlErr
+    | Some [] => PlErr
+    | Some (v0 :: vs) =>
+      if gs_float_ok v0 then PlOutside
+      else pl_map_parsed (fun G => FcSubsetcard (plg_adj (io_n G) (io_edges G)) (io_r G) eq)
+                         (plg_graph_arg GSBipartite (v0 :: vs))
+    end.
+
 Definition pl_no_args (c : pl_fcmd) (toks : list text) : pl_parsed pl_fcmd :=
   match pl_fixed [] None toks with
   | PlOk _ => PlOk c
@@ -282,9 +413,7 @@ Definition pl_with_ints (tys : list argty) (rest : option argty) (mk : list Z ->
 
 (* names of the formula sub-commands that exist but are not modelled here *)
 Definition pl_other_formulas : list text :=
-  [lit "dimacs"; lit "domset"; lit "ec"; lit "iso"; lit "kclique"; lit "kcliquebin"; lit "kcolor"; lit "matching";
-   lit "peb"; lit "pitfall"; lit "ramlb"; lit "randkcnf"; lit "randkxor"; lit "stone"; lit "subgraph";
-   lit "subsetcard"; lit "tiling"; lit "tseitin"].
+  [lit "dimacs"; lit "iso"; lit "pitfall"; lit "ramlb"; lit "randkcnf"; lit "randkxor"; lit "subgraph"].
 
 Definition pl_is (name : text) (s : String.string) : bool := gs_teqb name (lit s).
 
@@ -313,6 +442,24 @@ Definition pl_parse_formula (name : text) (toks : list text) : pl_parsed pl_fcmd
     pl_with_ints [TNonNeg; TNonNeg] None (fun zs => match zs with [p; n] => Some (FcAnd p n) | _ => None end) toks
   else if pl_is name "or" then
     pl_with_ints [TNonNeg; TNonNeg] None (fun zs => match zs with [p; n] => Some (FcOr p n) | _ => None end) toks
+  else if pl_is name "kcolor" then
+    pl_parse_int_graph [] [] TPos GSSimple (fun _ k G => FcKcolor k (io_n G) (io_edges G)) toks
+  else if pl_is name "kcliquebin" then
+    pl_parse_int_graph [] [] TNonNeg GSSimple (fun _ k G => FcKcliquebin k (io_n G) (io_edges G)) toks
+  else if pl_is name "kclique" then
+    pl_parse_int_graph [lit "--no-symmetry-breaking"] [] TNonNeg GSSimple
+      (fun cls k G => FcKclique k (negb (pl_has_flag "--no-symmetry-breaking" cls)) (io_n G) (io_edges G)) toks
+  else if pl_is name "domset" then
+    pl_parse_int_graph [lit "--alternative"; lit "-a"] [] TPos GSSimple
+      (fun cls d G => FcDomset d (pl_has_flag "--alternative" cls || pl_has_flag "-a" cls) (io_n G) (io_edges G)) toks
+  else if pl_is name "stone" then
+    pl_parse_int_graph [] [lit "--sparse"] TPos GSDag (fun _ s G => FcStone s (plg_preds (io_n G) (io_edges G))) toks
+  else if pl_is name "ec" then pl_parse_graph_only GSSimple (fun G => FcEc (io_n G) (io_edges G)) toks
+  else if pl_is name "tiling" then pl_parse_graph_only GSSimple (fun G => FcTiling (io_n G) (io_edges G)) toks
+  else if pl_is name "matching" then pl_parse_graph_only GSSimple (fun G => FcMatching (io_n G) (io_edges G)) toks
+  else if pl_is name "peb" then pl_parse_graph_only GSDag (fun G => FcPeb (plg_preds (io_n G) (io_edges G))) toks
+  else if pl_is name "tseitin" then pl_parse_tseitin toks
+  else if pl_is name "subsetcard" then pl_parse_subsetcard toks
   else if pl_is name "true" then pl_no_args FcTrue toks
   else if pl_is name "false" then pl_no_args FcFalse toks
   else if gs_mem name pl_other_formulas then PlOutside
@@ -440,6 +587,10 @@ Definition pl_of_c3 (render : list ir -> cnf) (r : c3res) : pl_fres :=
   | C3Err _ => FrCrash
   end.
 
+(* a family model that returns None where the generator raises ValueError *)
+Definition pl_of_opt (render : list ir -> cnf) (nv : Z) (o : option (list ir)) : pl_fres :=
+  match o with Some l => FrOk nv (render l) | None => FrErr end.
+
 (* simple_helpers.py: OR, AND: new_block(P), new_block(N) *)
 Definition pl_or_ir (p n : Z) : list ir := [IClause (upto p ++ map (fun v => - (p + v)) (upto n))].
 Definition pl_and_ir (p n : Z) : list ir :=
@@ -462,6 +613,19 @@ Definition pl_build_with (render : list ir -> cnf) (c : pl_fcmd) : pl_fres :=
   | FcOr p n => if (0 <=? p) && (0 <=? n) then FrOk (p + n) (render (pl_or_ir p n)) else FrErr
   | FcTrue => FrOk 0 (render [])
   | FcFalse => FrOk 0 (render [IClause []])
+  | FcKcolor k n E => pl_of_opt render (kcolor_numvar n k) (kcolor_ir n E k true)
+  | FcEc n E => pl_of_opt render (ec_numvar E) (ec_ir n E)
+  | FcTiling n E => FrOk (tiling_numvar n) (render (tiling_ir n E))
+  | FcMatching n E => FrOk (matching_numvar E) (render (matching_ir n E))
+  | FcKclique k sb n E => pl_of_opt render (kclique_numvar n k) (kclique_ir n E k sb)
+  | FcKcliquebin k n E => pl_of_opt render (kcliquebin_numvar n k) (kcliquebin_ir n E k true)
+  | FcDomset d alt n E => pl_of_opt render (domset_numvar n d) (domset_ir n E d alt)
+  | FcTseitin ch n E => FrOk (tseitin_numvar E) (render (tseitin_ir n E ch))
+  | FcGphp adj R f o => FrOk (gphp_numvar adj) (render (gphp_ir adj R f o))
+  | FcSubsetcard adj R eq => FrOk (subsetcard_numvar adj) (render (subsetcard_ir adj R eq))
+  | FcGop nb t s p kn => pl_of_c3 render (gop_formula nb t s p kn)
+  | FcPeb D => pl_of_c3 render (peb_formula D)
+  | FcStone s D => pl_of_c3 render (stone_formula D s)
   end.
 Definition pl_build : pl_fcmd -> pl_fres := pl_build_with to_cnf.
 Definition pl_build_fast : pl_fcmd -> pl_fres := pl_build_with to_cnf_f.
